@@ -107,7 +107,7 @@ def run(ctx, chk):
             "error": EC["CBOR_ERR_MALFORMATED"], "creation_failed": EC["CBOR_ERR_MEMERROR"], "syntax_error": EC["CBOR_ERR_SYNTAXERROR"]}
 
     import ownership as _O5
-    ps = P.Executor(prog, eff, inline=_O5.static_callees(prog, eff, "cbor_load")).run("cbor_load")
+    ps = P.Executor(prog, eff, arith_events=True).run("cbor_load")
     chk.floor("C05.fields", "paths of cbor_load", len(ps), 20)
     statuses_seen = set()
     seen_causes = set()
@@ -195,30 +195,16 @@ def run(ctx, chk):
                   and flags.get("cf") is False and flags.get("se") is False and last_status == DS["CBOR_DECODER_FINISHED"])
             chk.ob("C05.null-on-error", "path %d: non-NULL return is context.root after a clean FINISHED step" % k, ok, where, fn=f.name,
                    key="root:%d" % k, detail="" if ok else "returns %r (flags %s, last status %s)" % (pa.ret, flags, last_status))
-        # read bookkeeping: every store to result->read
-        cur_status = None
-        fi = 0
+        # read bookkeeping: the running total only grows by FINISHED read counts (wherever it is kept)
+        _valid, problems = DR.running_read(prog, pa, RES, read_off)
+        bad = {id(e): txt for e, txt in problems}
         for e in pa.events:
-            while fi < e.nfacts:
-                t, truth, _ = pa.facts[fi]
-                if t[0] == "in" and t[1][0] == "ld" and t[1][2] == st_status and len(t[2]) == 1:
-                    cur_status = t[2][0]
-                elif t[0] == "icmp" and t[1] == "eq" and isinstance(t[2], tuple) and t[2][0] == "ld" and t[2][2] == st_status and P.is_const(t[3]) and truth:
-                    cur_status = t[3][1]
-                fi += 1
-            if e.kind == "store" and P.ptr_key(e.args[0]) == (RES, read_off):
-                v = e.args[1]
-                ok = False
-                if v[0] == "op" and v[1] == "add":
-                    a, b = v[3], v[4]
-                    parts = [a, b]
-                    has_old = any(x[0] == "ld" and x[1] == RES and x[2] == read_off for x in parts) or any(x == ("c", 0) for x in parts)
-                    has_dec = any(x[0] == "ld" and x[1] in dres_cells and x[2] == st_read for x in parts)
-                    ok = has_old and has_dec and cur_status == DS["CBOR_DECODER_FINISHED"]
-                elif v[0] == "ld" and v[1] in dres_cells and v[2] == st_read:
-                    ok = cur_status == DS["CBOR_DECODER_FINISHED"]   # 0 + read folded
+            if (e.kind == "store" and P.ptr_key(e.args[0]) == (RES, read_off)) or \
+                    (e.kind == "arith" and e.callee == "add" and any(isinstance(x, tuple) and x[0] == "ld" and x[2] == st_read and
+                                                                     isinstance(x[1], tuple) and x[1][0] == "alloca" for x in e.args)):
+                ok = id(e) not in bad
                 chk.ob("C05.position", "path %d: read advanced by a FINISHED result only" % k, ok, e.ins.loc(), fn=f.name,
-                       key="readadv:%d:%d" % (k, e.ins.line), detail="" if ok else "read := %s under status %s" % (DR.fmt_term(v), cur_status))
+                       key="readadv:%d:%s:%d" % (k, e.kind, e.ins.line), detail="" if ok else bad[id(e)])
     missing = [k_ for k_, v_ in DS.items() if v_ not in statuses_seen]
     chk.ob("C05.status-exhaustive", "every enumerator of cbor_decoder_status is distinguished on some path of cbor_load", not missing, where,
            fn=f.name, detail="no path handles %s" % missing if missing else "")
